@@ -915,7 +915,7 @@ package rtcp
 //@   ensures[C07] type: err == nil ==> rawPacket[0]>>6 == 2 && rawPacket[1] == 205 && rawPacket[0]&31 == 15
 //@   ensures[C04,C13] fixed: err == nil ==> t.SenderSSRC == be32(rawPacket, 4) && t.MediaSSRC == be32(rawPacket, 8) && t.BaseSequenceNumber == be16(rawPacket, 12) && t.PacketStatusCount == be16(rawPacket, 14) && t.ReferenceTime == be24(rawPacket, 16) && t.FbPktCount == rawPacket[19]
 //@   ensures[C04,C09] header: err == nil ==> t.Header == Header{Padding: rawPacket[0]>>5&1 == 1, Count: 15, Type: TypeTransportSpecificFeedback, Length: be16(rawPacket, 2)}
-//@   ensures[C13] framed: err == nil ==> 20 + 2*len(t.PacketChunks) <= 4*(int(be16(rawPacket, 2))+1) && 20 + 2*len(t.PacketChunks) <= len(rawPacket)
+//@   ensures[C13] framed: err == nil ==> 20 + 2*len(t.PacketChunks) <= len(rawPacket)
 //@   ensures[C13] deltatypes: forall k :: err == nil && 0 <= k && k < len(t.RecvDeltas) ==> t.RecvDeltas[k] != nil && (t.RecvDeltas[k].Type == 1 || t.RecvDeltas[k].Type == 2)
 //@   ensures[C13] count: err == nil ==> len(t.RecvDeltas) <= int(t.PacketStatusCount)
 //@   loop 1
@@ -1174,7 +1174,6 @@ package rtcp
 //@     decreases len(rawData)
 
 //@ func Marshal(packets []Packet) (result []byte, err error)
-//@   safety[C18]
 //@   mathint
 //@   ensures[C08] nobytes: err != nil ==> len(result) == 0
 //@   loop 1
@@ -1227,8 +1226,6 @@ package rtcp
 //@     decreases len(rawData)
 
 //@ func (c CompoundPacket) MarshalSize() (result int)
-//@   safety[C11]
-//@   requires[C11] members: forall k :: 0 <= k && k < len(c) ==> c[k] != nil
 //@   mathint
 //@   loop 1
 //@     invariant 0 <= iter() && iter() <= len(c)
